@@ -143,7 +143,13 @@ def build(c):
             return out
         model = cuqi.model.LinearModel(lambda x: np.asarray(x)[:m], vadj, range_geometry=m, domain_geometry=dom)
     else:
-        model = cuqi.model.LinearModel(lambda x: Am @ x, lambda y: Am.T @ y, range_geometry=m, domain_geometry=dom)
+        fw_, ad_ = (lambda x: Am @ x), (lambda y: Am.T @ y)
+        if gen.geom_par_dim(c["dom"]) == n:
+            # the SAME forward / adjoint callables first serve another model whose domain geometry has the same number of parameters
+            # (plain nodal values); its matrix is assembled - nothing of it may carry over to the model under test
+            decoy = cuqi.model.LinearModel(fw_, ad_, range_geometry=m, domain_geometry=cuqi.geometry.Continuous1D(n))
+            refuses(lambda: decoy.get_matrix())
+        model = cuqi.model.LinearModel(fw_, ad_, range_geometry=m, domain_geometry=dom)
     npar = model.domain_dim
     nkw, Se = form_arg(c["noise_form"], c["nvar"], c["NG"])
     pkw, Sx = form_arg(c["prior_form"], c["pvar"], c["PG"])
